@@ -66,7 +66,7 @@ def gen_ids(tier, seed, effort=1):
 
 def run(rep, tier, seed, model_ok=True, effort=1):
     rep.rule = ("exhaustive over all BUILD ids of 1..%d digits (incl. zero padded) + seeded random ids of 5..12 digits; "
-                "each bumped once through v2version.incr(id, 'BUILD') and lexid.next_id; chains of successive bumps; `bumpver test` on patterns with a BUILD part under random flag sets (--pin-increments, --tag, --major/--minor, --pin-date/--date); "
+                "each bumped once through v2version.incr(id, 'BUILD') and lexid.next_id; chains of successive bumps; `bumpver test` on patterns with a BUILD part under random flag sets (--pin-increments, --tag, --tag-num, --major/--minor, --pin-date/--date), incl. BLD (the id without padding) and ids known only from a VCS tag; "
                 "non-trivial = distinct id whose bump succeeds" % (4 if tier == "quick" else 5))
     items, meta = [], []
     seen = set()
